@@ -101,9 +101,11 @@ def run_real_threads(job, res, tmp):
     rng = random.Random(job["seed"])
     path = os.path.join(tmp, f"rt{os.getpid()}.{ext}")
 
+    period = [0.005]
+
     class FastTimer(threading.Timer):
         def __init__(self, interval, function, args=None, kwargs=None):
-            super().__init__(0.005 if interval == 10.0 else interval, function, args, kwargs)
+            super().__init__(period[0] if interval == 10.0 else interval, function, args, kwargs)
 
     class Threading:
         Timer = FastTimer
@@ -177,6 +179,9 @@ def run_real_threads(job, res, tmp):
         time.sleep(rng.choice([0.0, 0.003, 0.02]))
         stop_exc = None
         if stop_in_cb:
+            # from here on the save timer has its real period again: no periodic save comes to the rescue within the run
+            period[0] = 10.0
+            time.sleep(0.05)
             gw.tasks.add_job(gw.logic, f"99;255;0;0;17;{version}")      # the message whose callback calls stop()
             t_end = time.time() + 10
             while not cb_state["called"] and time.time() < t_end:
